@@ -329,6 +329,25 @@ impl Check for RwCheck {
     }
     fn gen(&self, seed: u64, tier: Tier) -> Run {
         let mut run = gen_rw_run(self.id, seed, tier);
+        if self.id == "C11R" {
+            let mut w = Rng::stream(seed, "naming");
+            run.set("naming", 0);
+            run.set("naming_b", 1 + w.below(NAMING_KINDS as usize - 1) as i64);
+            run.set("modify", 0);
+            // b[x := t] picks a representative term of b by extraction / by class creation
+            // order, which is a documented tie-break by hash order: not part of C11's claim
+            let subst_rule = rule_pool(run.get("p") as u32).iter().position(|r| r.name == "let-subst").unwrap() as i64;
+            let n = rule_pool(run.get("p") as u32).len() as i64;
+            for o in run.ops.iter_mut() {
+                if o.name == "rewrite" {
+                    for i in o.i.iter_mut() {
+                        if i.rem_euclid(n) == subst_rule {
+                            *i = 0;
+                        }
+                    }
+                }
+            }
+        }
         if self.id == "C14" {
             // also raw unions (not model-valid): analysis propagation does not need validity
             let mut w = Rng::stream(seed, "unions");
@@ -353,6 +372,7 @@ impl Check for RwCheck {
         match self.id {
             "C03" => "1-2 seeded start terms over LA (arithmetic mod p in {3,5,7} with sum and let binders, uninterpreted constants), 1-6 iterations of apply_rewrites with a seeded subset of the 27 model-valid rules (each rule validated against M_field on 200 random instances at start-up), both substitution methods, optional constant-folding modify hook, probes from inside appliers and Analysis::make; after every iteration every e-node of every class with at most 3 slots is evaluated against its class table under all environments and two assignments of its redundant slots, every inserted term is evaluated directly; non-trivial = at least one iteration changed the e-graph and at least 50 e-node evaluations were compared; distinct = distinct canonical key",
             "C14" => "seeded LA histories of insertions, raw unions (runs without modify) and rewrite iterations with the simulator's analysis (min size, min depth, constant value mod p with optional modify hook); after every operation every live class's datum is recomputed as the join of make over its e-nodes, size is compared with value-iteration min cost, constants with the class's model table, equal invocations share one datum; non-trivial = at least one operation changed the e-graph after the first insertion and at least 10 classes were recomputed; distinct = distinct canonical key",
+            "C11R" => "the C03 workload executed twice with identical knobs but different slot namings; the naming-independent fingerprint (node count, live classes, slot and symmetry sums, per-class (slots, nodes) multiset, equality partition and eq-matrix over all inserted terms), the analysis data and the best extraction cost of every inserted term must agree after every operation; non-trivial = at least one iteration changed the e-graph; distinct = distinct canonical key",
             "C08R" => "the C03 workload (rewriting over LA with analysis, modify hook, both substitution methods) checked only for C08's clauses: no panic / fuel exhaustion in any operation, EGraph::check and the API-level structure clauses after every operation; non-trivial = at least one iteration changed the e-graph; distinct = distinct canonical key",
             _ => "",
         }
@@ -367,6 +387,9 @@ impl Check for RwCheck {
         }
     }
     fn exec(&self, run: &Run) -> Outcome {
+        if self.id == "C11R" {
+            return exec_c11r(run);
+        }
         let mut out = Outcome::default();
         seam::apply(&run.knobs());
         CONST_CONFLICT.with(|c| c.set(None));
@@ -459,6 +482,85 @@ impl Check for RwCheck {
         out.nontrivial = out.discarded.is_none() && changes >= 1 && ((c03 && evals >= 50) || (c14 && recomputed >= 10) || c08);
         out
     }
+}
+
+/// C11 under rewriting: the same LA trace under two namings, compared after every operation
+fn exec_c11r(run: &Run) -> Outcome {
+    let mut out = Outcome::default();
+    let knobs = run.knobs();
+    let nb = if run.get("naming_b") == run.get("naming") { (run.get("naming") + 1).rem_euclid(NAMING_KINDS as i64) } else { run.get("naming_b").rem_euclid(NAMING_KINDS as i64) };
+    let mut observed: Vec<Vec<String>> = Vec::new();
+    let mut changes = 0;
+    for naming in [run.get("naming").rem_euclid(NAMING_KINDS as i64) as u32, nb as u32] {
+        seam::apply(&knobs);
+        CONST_CONFLICT.with(|c| c.set(None));
+        let mut s: Sess<LA, SimAn> = Sess::new(new_la_egraph(run), naming);
+        let pb = Rc::new(RefCell::new(200u64));
+        let budget = run.get("node_budget").max(50) as usize;
+        let mut obs: Vec<String> = Vec::new();
+        for (k, op) in run.ops.iter().enumerate() {
+            s.cur_op = k;
+            if s.eg.total_number_of_nodes() > budget && op.name == "rewrite" {
+                obs.push("skipped".into());
+                continue;
+            }
+            let before = s.eg.progress();
+            if catch_op(|| exec_la_op(&mut s, op, run, &pb)).is_err() {
+                out.discarded = Some("panic".into());
+                return out;
+            }
+            out.ops_executed += 1;
+            if before != s.eg.progress() && k > 0 {
+                changes += 1;
+            }
+            let o = catch_op(|| {
+                // only the observables C11 names: no node counts (they legitimately depend on
+                // hash-order tie-breaks, and the hash of a node depends on its slot names)
+                let full = fingerprint(&mut s);
+                let parts: Vec<&str> = full.split('/').collect();
+                let mut f = format!("{}/{}/{}/{}/{}", parts[1], parts[2], parts[3], parts[5], parts[6]);
+                let ex = Extractor::<LA, super::extract::SimCostFn>::new(&s.eg, super::extract::SimCostFn(SimCost::Size));
+                for i in 0..s.tracked.len() {
+                    let h = s.tracked[i].h.clone();
+                    let fh = s.eg.find_applied_id(&h);
+                    let d = s.eg.analysis_data(fh.id).clone();
+                    let mut kept: Vec<S> = fh.slots().iter().map(|x| s.nm.unslot(*x)).collect();
+                    kept.sort();
+                    let cost = ex.get_best_cost::<SimAn>(&fh);
+                    f.push_str(&format!("|{:?}{:?}c{}", d, kept, cost));
+                }
+                f
+            });
+            match o {
+                Ok(f) => obs.push(f),
+                Err(_) => {
+                    out.discarded = Some("panic_in_query".into());
+                    return out;
+                }
+            }
+            out.states.push(state_hash(&s.eg));
+        }
+        observed.push(obs);
+    }
+    for (k, (a, b)) in observed[0].iter().zip(observed[1].iter()).enumerate() {
+        if a != b {
+            out.violations.push(Violation {
+                property: "C11".into(),
+                clause: "rewriting_observables".into(),
+                kind: "mismatch".into(),
+                sig: "naming_dependence".into(),
+                triggers: vec![],
+                detail: format!("after op {k} ({}) the observables differ between namings {} and {nb}: {a} vs {b}", run.ops[k].short(), run.get("naming")),
+                at_op: k,
+            });
+            break;
+        }
+    }
+    super::matching::finish_counters(&mut out, run);
+    out.bump("K5_client_schedule");
+    out.log_hash = crate::rng::hash_str(&format!("{:?}", observed[0]));
+    out.nontrivial = out.discarded.is_none() && changes >= 2;
+    out
 }
 
 // =============================================================================================
